@@ -286,23 +286,9 @@ def run(ctx):
     #      tie K3: convert_doc D = the real dump, exactly, on every fragment document of the run
     try:
         import convert_check
-        thms_f = theorem_names(os.path.join(vlib.COQ, "theories", "Props", "C02F.v"), "C02F_")
-        if thms_f:
-            prop_saved = ctx.prop
-            ctx.prop = "C02F"
-            vlib.standard_coq_obligations(ctx, "Props.C02F", thms_f, vlib.STD_AXIOMS)
-            ctx.prop = prop_saved
-            t0 = time.time()
-            res = convert_check.run(n=60 if quick else 400, seed=ctx.seed, tag="c02_convert",
-                                    exhaustive_docs=not quick)
-            ctx.oblige("correspondence K3: Convert.convert_doc = real type space (exact term equality) on %d "
-                       "fragment documents" % res["in_frag"], not res["mismatches"] and res["in_frag"] > 0,
-                       json.dumps(res["mismatches"][:2], default=str)[:1500])
-            ctx.coverage["convert_fragment_documents"] = res["in_frag"]
-            ctx.coverage["convert_outside_fragment"] = res["out"]
-            ctx.evaluations += res["in_frag"]
-        else:
-            ctx.oblige("Props/C02F.v present", False, "fragment theorem file missing")
+        # build + forbidden scan + Print Assumptions of every C02F_* theorem, the integer-table tie, K3 (exact term
+        # equality), "no fragment document has a name-reuse event", and K3 of the titled-root model
+        convert_check.convert_obligations(ctx, "C02")
     except Exception as e:  # noqa
         ctx.oblige("converter model correspondence K3 evaluates", False, str(e)[-1500:])
 
